@@ -74,6 +74,13 @@ def run_govc(pkgs, only, timeout, workdir, tag, overlay=None, extra=None):
         cmd += ["-loopsigs", LOOPSIGS]
     if os.path.exists(KNOWNFUNCS):
         cmd += ["-knownfuncs", KNOWNFUNCS]
+    # postconditions that are open findings are checked but never assumed (neither behind their own return nor by callers)
+    na = [k["clause"] for k in load_json(KNOWN, {"findings": []}).get("findings", []) if k.get("status") == "open" and k.get("clause")]
+    if na:
+        naf = os.path.join(workdir, "noassume.json")
+        with open(naf, "w") as f:
+            json.dump(na, f)
+        cmd += ["-noassume", naf]
     if extra:
         cmd += extra
     p = subprocess.run(cmd, env=go_env(), stdout=subprocess.PIPE, stderr=subprocess.STDOUT, text=True)
